@@ -20,13 +20,21 @@ NOT decided: nothing content-dependent is involved; that the segments themselves
 
 class Buf:
     """Recording stand-in for encoder.Buffer (only what the pad helpers use)."""
-    _model = ('extend',)
+    _model = ('extend', 'append_bits', 'getbits')
 
     def __init__(self, n=0):
         self.bits = [7] * n     # 7 = 'some earlier bit', never inspected
 
     def extend(self, it):
         self.bits.extend(list(it))
+
+    def append_bits(self, val, length):
+        if not isinstance(val, int) or isinstance(val, bool) or not isinstance(length, int):
+            raise Unknown('append_bits with a non-constant value or width')
+        self.bits.extend((val >> i) & 1 for i in reversed(range(length)))
+
+    def getbits(self):
+        return self.bits
 
     def __len__(self):
         return len(self.bits)
